@@ -298,6 +298,12 @@ func (in *Interp) bitop(op token.Token, a, b *Term, bits uint8, signed bool) Val
 			}
 		}
 	}
+	// packing idiom: x<<k | y with y < 2^k (the low k bits of x<<k are zero): OR and XOR are additions
+	if (op == token.OR || op == token.XOR) && a.lo != nil && b.lo != nil && a.lo.Sign() >= 0 && b.lo.Sign() >= 0 && a.hi != nil && b.hi != nil {
+		if trailingZeroBits(a) >= b.hi.BitLen() || trailingZeroBits(b) >= a.hi.BitLen() {
+			return tb.Wrap(tb.Add(a, b), bits, signed)
+		}
+	}
 	if bop, ok := map[token.Token]Op{token.AND: OBitAnd, token.OR: OBitOr, token.XOR: OBitXor}[op]; ok {
 		if t := tb.BitOp(bop, a, b); t != nil {
 			return tb.Wrap(t, bits, signed)
@@ -318,6 +324,37 @@ func (in *Interp) bitop(op token.Token, a, b *Term, bits uint8, signed bool) Val
 	}
 	unsup("bit operation %s on symbolic operands %s, %s", op, a, b)
 	return nil
+}
+
+// trailingZeroBits: a lower bound on the number of low zero bits of a non-negative term.
+func trailingZeroBits(t *Term) int {
+	switch t.op {
+	case OConst:
+		if t.val.Sign() == 0 {
+			return 64
+		}
+		return int(t.val.TrailingZeroBits())
+	case OMul:
+		return trailingZeroBits(t.a) + trailingZeroBits(t.b)
+	case OAdd, OBitOr, OBitXor:
+		x, y := trailingZeroBits(t.a), trailingZeroBits(t.b)
+		if y < x {
+			return y
+		}
+		return x
+	case OIte:
+		x, y := trailingZeroBits(t.b), trailingZeroBits(t.c)
+		if y < x {
+			return y
+		}
+		return x
+	case OWrap:
+		if n := trailingZeroBits(t.a); n < int(t.bits) {
+			return n
+		}
+		return int(t.bits)
+	}
+	return 0
 }
 
 func (in *Interp) convert(v Value, from, to types.Type) Value {
